@@ -262,6 +262,15 @@ func (cr *ChunkReader) parseAndRemoveChunkInfo(p []byte) (int, error) {
 			}
 		}
 
+		// read the body to its end: the readers underneath verify the request
+		// signature (and digests) only when they see the end of the stream
+		if !cr.isEOF {
+			if _, err := io.Copy(io.Discard, cr.r); err != nil {
+				return 0, err
+			}
+			cr.isEOF = true
+		}
+
 		return 0, io.EOF
 	}
 
